@@ -252,10 +252,15 @@ pub fn build_state(rng: &mut Rng, store: &mut Store, uni: &Universe, other: &Uni
 }
 
 pub fn query_space(rng: &mut Rng, dump: &BTreeMap<AKey, SignedEntry>, uni: &Universe, per_state: usize) -> Vec<QSpec> {
+    let ids: Vec<[u8; 32]> = uni.authors.iter().map(|a| a.id().to_bytes()).collect();
+    query_space_for(rng, dump, &ids, per_state)
+}
+
+pub fn query_space_for(rng: &mut Rng, dump: &BTreeMap<AKey, SignedEntry>, author_ids: &[[u8; 32]], per_state: usize) -> Vec<QSpec> {
     let n = dump.len() as u64;
     let mut authors: Vec<Option<[u8; 32]>> = vec![None];
-    for a in &uni.authors {
-        authors.push(Some(a.id().to_bytes()));
+    for a in author_ids {
+        authors.push(Some(*a));
     }
     authors.push(Some([0xEE; 32])); // absent author
     let mut keyfs = vec![KeyF::Any];
@@ -385,6 +390,10 @@ pub fn run(ctx: &mut Ctx) {
     let per_state = if ctx.is_quick() { 250 } else { 600 };
     for case in ctx.cases(400, 40_000) {
         let mut rng = ctx.rng(case);
+        if case % 5 == 4 {
+            raw_id_case(ctx, case, &mut rng, &scratch, per_state);
+            continue;
+        }
         let backend = if rng.chance(1, 8) { Backend::File } else { Backend::Memory };
         let (mut store, _p) = new_store(backend, &scratch);
         let uni = Universe::new(&mut rng, 1);
@@ -450,6 +459,75 @@ pub fn run(ctx: &mut Ctx) {
                 d["state"] = json!(short(&dm.values().cloned().collect::<Vec<_>>()));
                 ctx.violation(case, &sig, d);
             }
+        }
+    }
+}
+
+/// States whose namespace and author ids sit at a carry boundary (id ending in 0xFF next to its
+/// carried successor). Such ids cannot be signed for, so the entries are written below the
+/// validation layer (hook H3); the query engine and its table bounds are the same.
+fn raw_id_case(ctx: &mut Ctx, case: u64, rng: &mut Rng, scratch: &Scratch, per_state: usize) {
+    use crate::wire::RawEntry;
+    let t0 = crate::gen::t0();
+    let mk_pair = |rng: &mut Rng| -> ([u8; 32], [u8; 32]) {
+        let mut a = rng.fill32();
+        let ffs = rng.range(1, 2);
+        for i in 0..ffs {
+            a[31 - i] = 0xFF;
+        }
+        if a[31 - ffs] == 0xFF {
+            a[31 - ffs] = 0x05;
+        }
+        let mut b = a;
+        b[31 - ffs] += 1;
+        for i in 0..ffs {
+            b[31 - i] = rng.next_u64() as u8;
+        }
+        (a, b)
+    };
+    let (ns_a, ns_b) = mk_pair(rng);
+    let (au_a, au_b) = mk_pair(rng);
+    let authors = [au_a, au_b, rng.fill32()];
+    let (mut store, _) = new_store(if rng.chance(1, 8) { Backend::File } else { Backend::Memory }, scratch);
+    for ns in [ns_a, ns_b] {
+        store.import_namespace(iroh_docs::Capability::Read(NamespaceId::from(&ns))).unwrap();
+        let mut keys: Vec<Vec<u8>> = vec![];
+        for _ in 0..rng.range(2, 14) {
+            let k = crate::gen::key(rng, &keys, 3);
+            keys.push(k.clone());
+            let a = *rng.pick(&authors);
+            let marker = rng.chance(1, 4);
+            let (h, l) = if marker { (iroh_blobs::Hash::EMPTY, 0) } else { crate::gen::content(rng.below(4)) };
+            let mut id = ns.to_vec();
+            id.extend_from_slice(&a);
+            id.extend_from_slice(&k);
+            let raw = RawEntry { author_sig: [1; 64], namespace_sig: [2; 64], id, len: l, hash: *h.as_bytes(), ts: t0 + rng.below(8) as u64 };
+            if let Ok(e) = raw.into_entry() {
+                let _ = iroh_docs::verif::si_entry_put(&mut store, NamespaceId::from(&ns), e);
+            }
+        }
+    }
+    let ns = NamespaceId::from(&ns_a);
+    let Ok(dm) = dump(&mut store, ns) else {
+        ctx.violation(case, "dump-failed", json!({"ids": "carry-boundary"}));
+        return;
+    };
+    ctx.eval();
+    ctx.count("raw_id_states", 1);
+    if dm.values().any(|e| e.namespace() != ns) {
+        ctx.violation(case, "scan-returns-entries-of-another-document[carry-boundary-ids]", json!({"ns_a": hex::encode(&ns_a[28..]), "ns_b": hex::encode(&ns_b[28..])}));
+        return;
+    }
+    if dm.len() >= 2 {
+        ctx.nontrivial(h64(format!("raw{:?}", dm.keys().collect::<Vec<_>>()).as_bytes()));
+    }
+    for q in query_space_for(rng, &dm, &authors, per_state / 2) {
+        ctx.count("queries", 1);
+        if let Some((sig, detail)) = check_query(&mut store, ns, &dm, &q) {
+            let mut d = detail;
+            d["authors"] = json!(authors.iter().map(|a| hex::encode(&a[28..])).collect::<Vec<_>>());
+            ctx.violation(case, &format!("{sig}[carry-boundary-ids]"), d);
+            return;
         }
     }
 }
